@@ -159,6 +159,30 @@ def unit(job, variant, pi, seed, n_edits, chain_len, want_model):
             base.insert(pos, "!debug \"viewer('clock')\"")
     prev_text = plan_text(job, variant, base)
     hist = run_plan(prev_text)
+    if pi == 0:
+        # ... for EVERY value of every entity field, not only the values this plan reaches
+        first_ck = next((pl.checkpoint for resp in hist for pl in resp.logs if pl.checkpoint is not None), None)
+        for b in (simlib.perturbed_roundtrip(first_ck.store_ckpt) if first_ck is not None else [])[:2]:
+            out["failing"].append({"kind": "checkpoint-field-is-lost-on-restore", "job": job, "variant": variant, **b})
+        if out["failing"]:
+            return out
+    # what the incremental runner restarts from: every checkpoint a result carries restores to a store that saves to it
+    for resp in hist:
+        for pl in resp.logs:
+            if pl.checkpoint is None:
+                continue
+            try:
+                again = pl.checkpoint.restore().save()
+            except Exception as e:  # noqa: BLE001
+                again = f"{type(e).__name__}: {str(e)[:200]}"
+            if again != pl.checkpoint.store_ckpt:
+                bad = again if isinstance(again, str) else \
+                    {k: [pl.checkpoint.store_ckpt.get(k), again.get(k)] for k in pl.checkpoint.store_ckpt
+                     if again.get(k) != pl.checkpoint.store_ckpt.get(k)}
+                out["failing"].append({"kind": "checkpoint-of-a-result-does-not-restore-to-itself", "job": job,
+                                       "variant": variant, "log_index": resp.index, "previous_plan": base,
+                                       "entities: [recorded, after restore]": bad if isinstance(bad, str) else dict(list(bad.items())[:3])})
+                return out
     all_edits = edits(rng, base, names, delay_skill)
     rng.shuffle(all_edits)
     must = [e for e in all_edits if e[0].startswith("debug-text")][:3]
@@ -251,6 +275,44 @@ def unit(job, variant, pi, seed, n_edits, chain_len, want_model):
     return out
 
 
+def long_unit(job, variant, seed):
+    """plans of more than a hundred commands (which logs carry a checkpoint must not depend on how long the WHOLE plan
+    is): 104 -> 112 -> 95 -> 131 commands, each step's hint the previous step's incremental output"""
+    rng = random.Random(f"C04:long:{seed}:{job}:{variant}")
+    out = {"pairs": 0, "chains": 0, "failing": [], "labels": {"long-plan": 0}, "reqs": [], "expect": [], "sample": None}
+    cmds = simlib.random_plan(rng, job, variant, 131, with_console=True, max_elapse=3000.0)
+    lines = [command_text(c) for c in cmds]
+    seq = [lines[:104], lines[:112], lines[:95], lines]
+    cur_text, cur_hist = None, None
+    for step, body in enumerate(seq):
+        text = plan_text(job, variant, body)
+        full = outcome(lambda: run_plan(text))
+        if cur_text is None:
+            inc = run_plan(text)
+        else:
+            out["pairs"] += 1
+            out["labels"]["long-plan"] += 1
+            try:
+                inc = run_plan_with_hint(cur_text, cur_hist if step % 2 else via_json(cur_hist), text)
+            except Exception as e:  # noqa: BLE001
+                out["failing"].append({"kind": "hint-differs", "job": job, "variant": variant, "edit": "long-plan",
+                                       "lengths": [len(b) for b in seq[: step + 1]],
+                                       "first_difference": {"what": f"exception {type(e).__name__}: {e}"}})
+                break
+            d = first_diff(dump(inc), full)
+            if d is not None:
+                out["failing"].append({"kind": "hint-differs", "job": job, "variant": variant, "edit": "long-plan",
+                                       "lengths": [len(b) for b in seq[: step + 1]], "plan": lines,
+                                       "first_difference": d})
+                break
+        cur_text, cur_hist = text, inc
+    return out
+
+
+def any_unit(kind, args):
+    return long_unit(*args) if kind == "long" else unit(*args)
+
+
 def main(ck: Check):
     quick = ck.tier == "quick"
     jobs = JOBS
@@ -263,7 +325,9 @@ def main(ck: Check):
     pairs = chains = 0
     labels: dict[str, int] = {}
     samples, reqs, expect = [], [], []
-    for args, out in pmap(unit, work, ck.budget_s * 0.75):
+    long_jobs = [JOBS[(ck.seed + k) % len(JOBS)] for k in range(2)] if quick else list(JOBS)
+    work_all = [("unit", a) for a in work] + [("long", (job, 0, ck.seed)) for job in long_jobs]
+    for args, out in pmap(any_unit, work_all, ck.budget_s * 0.75):
         if args is None:
             ck.notes.append(f"budget reached: {out}")
             if out["done"] < max(4, out["total"] // 2):
